@@ -34,7 +34,12 @@ impl Styles {
     }
     fn get_num_fmt_index(&self, format_code: &str) -> Option<i32> {
         if let Some(index) = get_default_num_fmt_id(format_code) {
-            return Some(index);
+            // A workbook-defined `numFmt` takes precedence over the built-in table
+            // (see `get_num_fmt`): the built-in id is only usable if it still
+            // resolves to this format code.
+            if get_num_fmt(index, &self.num_fmts) == format_code {
+                return Some(index);
+            }
         }
         for item in self.num_fmts.iter() {
             if item.format_code == format_code {
